@@ -535,7 +535,8 @@ def run_case_c14(case):
                             model[hk] = {"path": None, "score": entry["score"], "sliced": None, "canon": entry["canon"], "q": entry["q"]}
                         elif ow == "improved" and entry["score"] is None:
                             model[hk] = {"path": None, "score": None, "sliced": None, "canon": entry["canon"], "q": entry["q"]}
-                    stored_once = True
+                    if hk not in tainted:
+                        stored_once = True
                     log.add("update", si, hk, new_score)
                     continue
                 # ---- query -----------------------------------------------------
@@ -694,7 +695,9 @@ def run_case_c14(case):
                             break
                 # ---- model update ---------------------------------------------------------
                 if searched:
-                    stored_once = True
+                    if hk not in tainted:
+                        # (a key whose store once failed may live on in the writer's memory only: no proof of a disk entry)
+                        stored_once = True
                     if st["via"] == "search":
                         new = {"path": got_path, "score": got_score if kind == "hyper" else got_score, "sliced": got_sliced, "canon": canon_a(q), "q": q}
                     else:
